@@ -895,3 +895,56 @@ Proof.
   destruct (zipm_in _ _ _ _ _ _ _ _ _ _ H Ht) as (c & orc' & _ & Hm).
   exact (model_tree_listed _ _ _ _ _ _ _ _ _ Hm).
 Qed.
+
+(* ------------------------------------------- results do not depend on fuel ---- *)
+Section FuelIndep.
+  Variable frags : list (name * fragment).
+  Variable impls : list (name * list name).
+
+  Lemma flat_fuel_indep n :
+    (forall s v, flat_sel frags n s = Ok v -> forall m v', flat_sel frags m s = Ok v' -> v = v') /\
+    (forall l v, flat_list frags n l = Ok v -> forall m v', flat_list frags m l = Ok v' -> v = v').
+  Proof.
+    induction n as [|n [IHs IHl]].
+    - split; [discriminate|]. intros [|x r] v H m v' H'; [|discriminate].
+      injection H as <-. rewrite flat_list_nil in H'. injection H' as <-. reflexivity.
+    - split.
+      + intros s v H [|m] v' H'; [discriminate|]. rewrite flat_sel_S in H, H'.
+        destruct s as [al nm args dirs sub|nm dirs|cd dirs sub].
+        * congruence.
+        * destruct (assoc nm frags); [eapply IHl; eauto|congruence].
+        * eapply IHl; eauto.
+      + intros [|x r] v H m v' H'.
+        * rewrite flat_list_nil in H, H'. congruence.
+        * destruct m as [|m]; [discriminate|]. rewrite flat_list_S in H, H'.
+          inv_bind H. inv_bind H. injection H as <-.
+          inv_bind H'. inv_bind H'. injection H' as <-.
+          f_equal; [eapply IHs|eapply IHl]; eauto.
+  Qed.
+
+  Lemma collect_fuel_indep n :
+    (forall st rt s v, collect_sel frags impls n st rt s = Ok v ->
+       forall m v', collect_sel frags impls m st rt s = Ok v' -> v = v') /\
+    (forall st rt l v, collect_list frags impls n st rt l = Ok v ->
+       forall m v', collect_list frags impls m st rt l = Ok v' -> v = v').
+  Proof.
+    induction n as [|n [IHs IHl]].
+    - split; [discriminate|]. intros st rt [|x r] v H m v' H'; [|discriminate].
+      injection H as <-. rewrite collect_list_nil in H'. injection H' as <-. reflexivity.
+    - split.
+      + intros st rt s v H [|m] v' H'; [discriminate|]. rewrite collect_sel_S in H, H'.
+        destruct s as [al nm args dirs sub|nm dirs|cd dirs sub].
+        * congruence.
+        * destruct (assoc nm frags) as [fr|]; [|discriminate].
+          destruct (applies_concrete impls rt (Some (fr_cond fr))); [eapply IHl; eauto|].
+          destruct (applies_static st (Some (fr_cond fr))); [eapply IHl; eauto|congruence].
+        * destruct (applies_concrete impls rt cd); [eapply IHl; eauto|].
+          destruct (applies_static st cd); [eapply IHl; eauto|congruence].
+      + intros st rt [|x r] v H m v' H'.
+        * rewrite collect_list_nil in H, H'. congruence.
+        * destruct m as [|m]; [discriminate|]. rewrite collect_list_S in H, H'.
+          inv_bind H. inv_bind H. injection H as <-.
+          inv_bind H'. inv_bind H'. injection H' as <-.
+          f_equal; [eapply IHs|eapply IHl]; eauto.
+  Qed.
+End FuelIndep.
